@@ -171,7 +171,7 @@ func CheckSignature(ctx context.Context, token string, payload []byte, claims Cl
 
 	signedPayload, err := set.VerifySignature(ctx, jws)
 	if err != nil {
-		return fmt.Errorf("%w (%v)", ErrSignatureInvalid, err)
+		return fmt.Errorf("%w (%w)", ErrSignatureInvalid, err)
 	}
 
 	if !bytes.Equal(signedPayload, payload) {
